@@ -1111,7 +1111,7 @@ def gen_ser_round_d_all(rng, tier):
     for _ in range(600 if quick else 24000):
         t = rng.choice(PY_DT_TYPES)
         yield {"v": enc_atom(rand_py_dt(rng, t)), "kw": KW(format=rand_dt_format(rng))}
-    for s in ["P1D", "P2Y6M5DT12H35M30.5S", "-P1Y", "PT0.5S", "P١D"]:
+    for s in ["P1D", "P2Y6M5DT12H35M30.5S", "-P1Y", "PT0.5S"]:  # "P١D" is not a value any more since /repo f68a32b (ascii digits only)
         yield {"v": {"t": "duration", "v": s}, "kw": KW()}
     for s in ["2001", "2001-10", "--10", "--10-31", "---31", "2001Z", "--10+02:00", "-2001", "12345-10"]:
         yield {"v": {"t": "period", "v": s}, "kw": KW()}
